@@ -233,6 +233,12 @@ fn check(c: &Case, ctx: &Ctx, via_cli: bool) -> Outcome {
             let aln = if let Some(d) = &dir {
                 let mut args: Vec<String> = vec!["align".into()];
                 args.extend(align_args(f, n));
+                // thread counts: none, a few, or far more than this machine has cores (a script written elsewhere)
+                match (t.rows.len() + 3 * n + i) % 6 {
+                    1 => args.extend(["--threads".to_string(), "3".to_string()]),
+                    4 => args.extend(["--threads".to_string(), "512".to_string()]),
+                    _ => {}
+                }
                 args.push(if bare { "t".into() } else { "t.skf".into() });
                 // half of the cases write to a file with -o instead of stdout
                 let to_file = (t.rows.len() + n + i) % 2 == 1;
